@@ -196,7 +196,7 @@ def mutate(prop, case, rng):
 
 
 def count(prop, tier):
-    return 300 if tier == 'quick' else 10000
+    return 1500 if tier == 'quick' else 10000
 
 
 def projection(prop):
